@@ -242,6 +242,7 @@ def run(ctx):
 
     # ---------------- leftmost / rightmost (used by the all-variants and by the search ranges)
     quant_rule(ctx, model)
+    setsubj_rule(ctx, model)
     r_ext = ctx.rule("C13.EXTREME", "TextSelectionSet::leftmost / rightmost return an item with the smallest begin / largest end, for sorted and unsorted sets (all sets up to 3 items over 0..3)")
     from formula import Evaluator, StructVal
     import itertools
@@ -506,3 +507,83 @@ def quant_rule(ctx, model):
         else:
             r.discharged += 1
     ctx.floor(r, r.obligations, 40, "operator values with a documented quantifier")
+
+
+RIGHTMOST_ALL = {"Precedes", "Before", "SameEnd"}
+LEFTMOST_ALL = {"Succeeds", "After", "SameBegin"}
+
+
+def setsubj_rule(ctx, model):
+    """a *set* as the subject of a test (TextSelectionSet::test against a selection, ::test_set against a set): the
+    documented lifting of the member-level test - every member must pass; with `all` the boundary relations are decided
+    by the set's rightmost / leftmost member; SameRange by both; Equals against a set also needs equal sizes - and a
+    negated operator is the complement of the positive one.  The member-level tests are the extracted ones (decided by
+    PAIR / QUANT), so only the lifting is judged here, on one- and two-member subject sets."""
+    from formula import OpVal, Unknown, Panic, is_some
+    r = ctx.rule("C13.SETSUBJ", "a test with a set as subject is the documented lifting of the member-level test (every member / the rightmost or leftmost member under `all` / both for SameRange), and its negation is the complement - on one- and two-member subject sets against a selection and against two-member sets")
+    L = 2 if ctx.tier == "quick" else 3
+    ivs = [(b, e) for b in range(L + 1) for e in range(b, L + 1)]
+    subjects = [[a] for a in ivs] + [[a, b] for i, a in enumerate(ivs) for b in ivs[i + 1:]]
+    refsets = [[a, b] for i, a in enumerate(ivs) for b in ivs[i + 1:]]
+    shapes = [("set-vs-sel", model.f_set_test, model.f_test, [("sel", x) for x in ivs]),
+              ("set-vs-set", model.f_set_test_set, model.f_test_set, [("set", x) for x in refsets])]
+    for fn in (model.f_set_test, model.f_set_test_set):
+        ctx.functions_analysed.add(fn.qual)
+    n_total = 0
+    for shape, fset, fmem, refs in shapes:
+        for op in model.opvalues((None, 1)):
+            v = op.variant
+            allv = bool(op.fields.get("all"))
+            neg = bool(op.fields.get("negate"))
+            key = "%s:%s{all:%s,negate:%s%s%s}" % (shape, v, fmt(allv), fmt(neg), ",limit" if is_some(op.fields.get("limit")) else "", ",ws" if op.fields.get("allow_whitespace") else "")
+            pos = OpVal(v, dict(op.fields, negate=False)) if "negate" in op.fields else op
+            r.obligations += 1
+            bad = unknown = None
+            n = 0
+            for A in subjects:
+                if unknown:
+                    break
+                As = [model.interval(*a) for a in A]
+                for kind, R in refs:
+                    ref = model.interval(*R) if kind == "sel" else [model.interval(*x) for x in R]
+                    for ws in ((True, False) if op.fields.get("allow_whitespace") else (True,)):
+                        try:
+                            got, _ = model.call(fset, list(As), [op, ref, "RESOURCE"], ws)
+
+                            def M(a):
+                                return model.call(fmem, a, [pos, ref, "RESOURCE"], ws)[0]
+                            if allv and v in RIGHTMOST_ALL:
+                                want = M(max(As, key=lambda i: (i["end"], i["begin"])))
+                            elif allv and v in LEFTMOST_ALL:
+                                want = M(min(As, key=lambda i: (i["begin"], i["end"])))
+                            elif v == "SameRange":
+                                want = M(min(As, key=lambda i: (i["begin"], i["end"]))) and M(max(As, key=lambda i: (i["end"], i["begin"])))
+                            else:
+                                want = all(M(a) for a in As)
+                                if v == "Equals" and kind == "set" and len(As) != len(ref):
+                                    want = False
+                        except Panic:
+                            continue   # reported by SUB / EXH
+                        except Unknown as u:
+                            unknown = str(u)
+                            break
+                        n += 1
+                        if neg:
+                            want = not want
+                        if got != want and bad is None:
+                            bad = (A, R, ws, got, want)
+                    if unknown:
+                        break
+            n_total += n
+            r.hit(key, sample={"operator": key, "evaluations": n} if n_total % 9 == 0 else None)
+            if unknown:
+                r.unknown += 1
+                ctx.report(r, "uninterpretable:" + key, "%s cannot be evaluated with a set as subject for %r (%s): obligation not discharged" % (fset.qual, op, unknown), fset.file, fset.line)
+            elif bad:
+                lifted = "its rightmost member" if (allv and v in RIGHTMOST_ALL) else "its leftmost member" if (allv and v in LEFTMOST_ALL) else "its leftmost and rightmost member" if v == "SameRange" else "every member"
+                ctx.report(r, key, "%r with the set %s as subject against %s%s gives %s; the member-level test lifted over %s%s gives %s" % (op, bad[0], bad[1], "" if bad[2] else " (gap not whitespace)", bad[3], lifted, ", negated" if neg else "", bad[4]), fset.file, fset.line,
+                           {"op": repr(op), "subject": bad[0], "reference": bad[1]})
+            else:
+                r.discharged += 1
+    ctx.floor(r, r.obligations, 100, "operator values x subject shapes")
+    r.notes.append("evaluations: %d" % n_total)
